@@ -476,3 +476,52 @@ CHECKS["C08"] = dict(
                "checked against the set of records ever stored; index arithmetic is enumerated over every configurable size and all 2^16 key prefixes.",
     level_note="Trusted: the fiber scheduler (scheduling points only at atomic accesses; the code between them touches thread-local data only). Weak-memory reorderings are not covered.",
 )
+
+# ------------------------------------------------------------------------------------------ C07
+def c07_parts(tier, seed):
+    q = tier == "quick"
+    T, T2 = "c07_eval", "c07_eval_net2"
+    parts = [
+        P("ops-net1", T, "fast", ["--part", "ops", "--depth", 5 if q else 6], require=["nontrivial"], deadline_frac=0.9),
+        P("ops-net2", T2, "fast", ["--part", "ops", "--depth", 4 if q else 5], require=["nontrivial"], deadline_frac=0.9),
+        P("ops-asan", T, "seq", ["--part", "ops", "--depth", 3 if q else 5], require=["nontrivial"], deadline_frac=0.9),
+        P("search-wrap", T, "fast", ["--part", "search", "--depth", 4 if q else 6, "--perft", 1], require=["wrapped_evaluations"], deadline_frac=0.9),
+        P("sym-u3", T, "fast", ["--part", "sym", "--universe", "u3", "--wk", 0], require=["nontrivial"]),
+        P("sym-u3-net2", T2, "fast", ["--part", "sym", "--universe", "u3", "--wk", 1], require=["nontrivial"]),
+        P("sym-u4", T, "fast", ["--part", "sym", "--universe", "u4", "--wk", 2, "--from", (seed * 6) % 80, "--count", 6 if q else 80], require=["nontrivial"], deadline_frac=0.9),
+        P("sym-perft", T, "fast", ["--part", "sym", "--universe", "perft", "--depth", 2 if q else 3], require=["nontrivial"]),
+        P("sym-5men", T, "fast", ["--part", "sym", "--universe", "5men", "--ks", 5 if q else 3, "--xs", 3 if q else 2, "--ys", 7 if q else 3], require=["nontrivial"], deadline_frac=0.9),
+    ]
+    for fl in ("simd-generic", "simd-ssse3", "simd-avx2", "simd-avx512"):
+        parts.append(P("stream-" + fl, T, fl, ["--part", "stream"], workers=1, require=["states"]))
+        parts.append(P("stream2-" + fl, T2, fl, ["--part", "stream"], workers=1, require=["states"]))
+    return parts
+
+def c07_post(part_outcomes, counters):
+    v = []
+    for prefix in ("stream-", "stream2-"):
+        hs = {p: o for p, o in part_outcomes.items() if p.startswith(prefix)}
+        vals = set(frozenset(o) for o in hs.values())
+        if len(vals) > 1 or len(hs) < 4:
+            v.append(dict(sig="simd-variants-disagree", part=prefix + "*", detail="evaluation stream hashes per build: %s" % {p: sorted(o) for p, o in hs.items()}, replay=dict(kind="input", what="stream")))
+    return v
+
+CHECKS["C07"] = dict(
+    parts=c07_parts, post=c07_post,
+    rule="states = operation sequences executed on a fresh machine (ops), searches whose every evaluation was intercepted (search-wrap), positions (sym), stream positions (SIMD); "
+         "transitions = operations applied / evaluations compared; non-trivial = the sequence used an incremental update (make/unmake), the search performed >= 1 evaluation, the value is non-zero",
+    alphabet="ops: ALL sequences up to depth d over {make first capture / middle / last king move, unmake-or-undo, null-move edit, evaluate, copy-assign from the seed, copy-assign from the "
+             "position 2 plies later, 5 direct setPiece edits (> maxIncr pending feature changes), toggle one knight, clear eval hash} from 6 seeds (castling+captures, en passant, "
+             "capture-promotions, kings at the e-file mirror boundary, queen-heavy material, middlegame), each on a fresh Evaluate + tables; search: every Evaluate::evalPos call of real "
+             "depth-d searches from the seed trees (ld --wrap); sym: U-3 (all), 4-men classes, seed trees, 5-men rule classes KRPKR/KBPKB/KBPKN/KNPKB/KQKRP thinned; contempt 0 and 37/-37; "
+             "SIMD: one evaluation stream (621k positions + an incremental walk) in the generic, SSSE3, AVX2 and AVX-512 builds, networks 1 (material + noise) and 2 (extreme weights)",
+    oracle="value after any history == from-scratch evaluation by a separate evaluator with forceFullEval and an emptied cache entry; evaluating twice gives the same value; "
+           "eval(p) == eval(colour-swapped p) (with negated contempt) and == eval(left-right mirrored p) when no castling rights; identical stream hash in all four SIMD builds",
+    bound=dict(quick="ops depth 5 (net1) / 4 (net2, ASan); search depth 4 from roots within 1 ply of 30 seeds; 6 rotating 4-men classes", thorough="ops depth 6/5; search depth 6; all 80 4-men classes"),
+    assumptions=["direct edits stay in the FEN-acceptable domain (<= 32 men, one king each, side not to move not in check)",
+                 "cache contents are legitimate (cleared, or produced by evaluating other positions), never bit-flipped entries",
+                 "build flavours use -O3 like the repository's own build; an evaluator self-test guards against the g++ 12 -O2 miscompilation described in DESIGN.md"],
+    technique="bounded-exhaustive enumeration of operation histories on the real evaluator with a from-scratch reference, interception of every evaluation of real searches, exhaustive symmetry checks on small universes, cross-build differential",
+    level_text="All operation histories up to the depth bound from each seed are executed on the real incremental evaluator and compared with a from-scratch evaluation; symmetry is checked on complete small universes; all SIMD variants are compared on one stream.",
+    level_note="Trusted: the reference evaluator configuration (full refresh + emptied cache entry); kernels are compared end-to-end, not per intrinsic.",
+)
